@@ -1,5 +1,6 @@
 (* C40 — Binlog events encode values the way MySQL replicas decode them.  Property theorems only. *)
 From Coq Require Import NArith ZArith List Bool.
+Import ListNotations.
 From Dolt Require Import Base.Str C40.Model C40.Spec C40.Corr C40.Proofs.
 Local Open Scope N_scope.
 
@@ -89,3 +90,45 @@ Print Assumptions C40_char_meta_roundtrip.
 Theorem C40_bit_meta_len_ok : forall bits, bits <= 64 -> bit_meta_len bits = N.of_nat (set_width bits).
 Proof. exact bit_meta_len_ok. Qed.
 Print Assumptions C40_bit_meta_len_ok.
+
+(* full for every DECIMAL(precision, scale) with precision > scale; precision = scale is C40_decimal_pp_refuted *)
+Theorem C40_decimal_roundtrip :
+  forall prec scale neg ip fp,
+    in_domain (VDecimal prec scale neg ip fp) = true -> prec <> scale ->
+    exists b, enc_decimal prec scale neg ip fp = Some b /\ decodes_to (VDecimal prec scale neg ip fp) b = true.
+Proof. exact decimal_roundtrip. Qed.
+Print Assumptions C40_decimal_roundtrip.
+
+Theorem C40_float_roundtrip :
+  forall bits, in_domain (VFloat bits) = true -> decodes_to (VFloat bits) (enc_float bits) = true.
+Proof. exact float_roundtrip. Qed.
+Print Assumptions C40_float_roundtrip.
+
+Theorem C40_double_roundtrip :
+  forall bits, in_domain (VDouble bits) = true -> decodes_to (VDouble bits) (enc_double bits) = true.
+Proof. exact double_roundtrip. Qed.
+Print Assumptions C40_double_roundtrip.
+
+(* partial: scalar documents only; arrays/objects are executed (json_examples) and checked by correspondence;
+   the full statement is refuted by the two theorems that follow *)
+Theorem C40_json_scalar_roundtrip_partial :
+  forall v, in_domain (VJson v) = true -> jv_scalar v = true ->
+    exists b, enc_json_doc v = Some b /\ decodes_to (VJson v) b = true.
+Proof. exact json_scalar_roundtrip_partial. Qed.
+Print Assumptions C40_json_scalar_roundtrip_partial.
+
+Theorem C40_json_key256_refuted :
+  exists v b, in_domain (VJson v) = true /\ enc_json_doc v = Some b /\ decodes_to (VJson v) b = false
+              /\ dec_json_doc 64 b = Some (JObj [(nil, JNull)]).
+Proof. exact json_key256_refuted. Qed.
+Print Assumptions C40_json_key256_refuted.
+
+Theorem C40_json_underflow_refuted :
+  exists v b, in_domain (VJson v) = true /\ enc_json_doc v = Some b /\ dec_json_doc 64 b = None.
+Proof. exact json_underflow_refuted. Qed.
+Print Assumptions C40_json_underflow_refuted.
+
+Theorem C40_oracle_on_model :
+  forall v, in_domain v = true -> proved_class v -> oracle v (model_obs v) = true.
+Proof. exact oracle_on_model. Qed.
+Print Assumptions C40_oracle_on_model.
